@@ -11,7 +11,12 @@
      seqfind <els> <map> <edx> <tag>           -> <member> | NONE
      tmapok <count> <map>                      -> names=<0|1> inside=<0|1>
        els = tag:optional:ctx,...   map = tag:el_no:toff_first:toff_last,...   tags = t,t,...   (- = empty)
+   the reassembly loops of Rt/SafetyFrag.v on the chunk sizes (octets) the length determinants announce:
+     fragot <c,c,...>                          -> OK <bufLen> <bufSize> rq=<realloc requests|-> w=<1: every store inside its block|0>
+     fragstr <brk 0|1> <c,c,...>               -> rq=<..> w=<0|1>        OCTET STRING / BIT STRING / ANY (1), INTEGER (0)
+     fragarr <n>                               -> rq=<..> w=<0|1>        n calls of asn_set_add()
    spec side (model only):
+     spec_fragot_double <c,c,...>         the open-type loop with the growth rule of seeded/C04-6
      spec_skiplen_early <hex>             the loop of seeded/C04-2 on the contents of an indefinite TLV
      spec_seqmem_back <els> <map> <first_ext|-> <tags>    the member loop with the backwards walk of seeded/C04-5
      spec_seqfind_back <els> <map> <edx> <tag> *)
@@ -50,8 +55,20 @@ let lres_s = function
   | LFuel -> "FUEL"
 let onat_s = function Some n -> string_of_int (int_of_nat n) | None -> "NONE"
 
+let zs_s l = if l = [] then "-" else String.concat "," (List.map string_of_cz l)
+let ot_s r = Printf.sprintf "OK %s %s rq=%s w=%d" (string_of_cz r.ot_len) (string_of_cz r.ot_size) (zs_s r.ot_reqs)
+    (if List.for_all wr_inb r.ot_writes then 1 else 0)
+
 let dispatch cmd args =
   match cmd, args with
+  | "fragot", [cs] -> Some (ot_s (ot_c (tags_of cs)))
+  | "spec_fragot_double", [cs] -> Some (ot_s (ot_double (tags_of cs)))
+  | "fragstr", [b; cs] ->
+      let (rq, ws) = str_all (b = "1") (cz_of_string "1") (tags_of cs) in
+      Some (Printf.sprintf "rq=%s w=%d" (zs_s rq) (if List.for_all wr_inb ws then 1 else 0))
+  | "fragarr", [n] ->
+      let r = arr_run (nat_of_int (int_of_string n)) (cz_of_string "0") (cz_of_string "0") in
+      Some (Printf.sprintf "rq=%s w=%d" (zs_s r.a_reqs) (if List.for_all wr_inb r.a_writes then 1 else 0))
   | "seqmem", [e; m; x; t] -> Some (lres_s (seq_members (els_of e) (map_of m) (fext_of x) (reent_of e) (tags_of t)))
   | "spec_seqmem_back", [e; m; x; t] -> Some (lres_s (seq_members_back (els_of e) (map_of m) (fext_of x) (reent_of e) (tags_of t)))
   | "setmem", [m; x; t] ->
